@@ -84,8 +84,17 @@ def build(path=None):
         arrays = []
         for ch in t.get("chunks") or []:
             if ch.get("parent_type") == "Array":
+                ln = int(ch["length"]) if ch.get("length") else (len(ch["default"]) if isinstance(ch.get("default"), list) else 0)
+                df = ch.get("default")
+                if isinstance(df, list):
+                    en = enums.get(ch.get("enum")) if ch.get("enum") else None
+                    dl = [int(x) if not isinstance(x, str) else member(ch["enum"], x) for x in df]
+                elif isinstance(df, (int, float)) and not isinstance(df, bool):
+                    dl = [int(df)] * ln
+                else:
+                    dl = [0] * ln
                 arrays.append({"name": ch["name"], "chnm": int(ch.get("chnm", 0)), "etype": ch["element_type"],
-                               "length": int(ch["length"]) if ch.get("length") else (len(ch["default"]) if isinstance(ch.get("default"), list) else 0)})
+                               "length": ln, "default": dl})
         out[mtype] = {"mtype": mtype, "mtypeb": list(mtype.encode("utf8")), "cls": tname, "group": t.get("group") or "",
                       "flags": int(t.get("defaultFlags") or 0), "ctls": ctls, "opts": opts,
                       "options_chnm": int(t.get("options_chnm", 0) or 0), "arrays": arrays}
